@@ -41,12 +41,12 @@ theorem packetOK_fields (t : Tables) (p : Packet) (h : packetOK t p = true) :
     · exact h1
 
 /-- a packet that passes `packetOK` builds a well-formed frame, for every non-negative parameter assignment -/
-theorem packet_frame (t : Tables) (tol : Match.Tol) (htol : tol.ok) (hw : wfAll t tol = true)
+theorem packet_frame (t : Tables) (tol : Match.Tol) (htol : tol.ok) (hw : EngineRT t tol)
     (p : Packet) (h : packetOK t p = true) (env : Env) (hp : ∀ n, 0 ≤ env.params n) :
     ∃ f, buildTraced t env p = .ok f ∧ FrameOK t f := by
   obtain ⟨hargs, hfields⟩ := packetOK_fields t p h
   have hitems := packetItems_eq t p env hp hargs hfields
-  obtain ⟨frame, hbuild, hwf, _, hper, _⟩ := engine_roundtrip t tol htol hw (t.params.map (kwVal p env)) (by simp)
+  obtain ⟨frame, hbuild, hwf, _, hper, _⟩ := hw (t.params.map (kwVal p env)) (by simp)
   rw [fieldsOf_map] at hbuild
   exact ⟨frame, by simp only [buildTraced, hitems, bind, Except.bind]; exact hbuild, hwf, hper⟩
 
@@ -59,7 +59,7 @@ theorem litOK_frame (t : Tables) (ds : List Int) (h : litOK t ds = true) : Frame
   · exact h'
 
 /-- **C03 at wrapper level** for one repeat count: every frame of `encode(**u, repeat_count = rc)` -/
-theorem C03_trace (t : Tables) (tol : Match.Tol) (htol : tol.ok) (hw : wfAll t tol = true)
+theorem C03_trace (t : Tables) (tol : Match.Tol) (htol : tol.ok) (hw : EngineRT t tol)
     (w : Wrapper) (rc : Nat) (tr : EncTrace) (htr : w.enc[rc]? = some tr) (hok : traceOK t tr = true)
     (u : String → Int) (hu : ∀ n, 0 ≤ u n) :
     ∃ fs, encodeFrames t w u rc = .ok fs ∧ fs.length = tr.frames.length ∧ fs ≠ [] ∧ ∀ f ∈ fs, FrameOK t f := by
